@@ -68,7 +68,34 @@ def run_property(pid, tier, write=True, root=None):
     return code, rep
 
 
+class _SafeOut:
+    """stdout that survives a closed pipe (`... | head -1`): the verdict is the exit code, not the text"""
+
+    def __init__(self, f):
+        self.f, self.dead = f, False
+
+    def write(self, x):
+        if self.dead:
+            return len(x)
+        try:
+            return self.f.write(x)
+        except BrokenPipeError:
+            self.dead = True
+            return len(x)
+
+    def flush(self):
+        if not self.dead:
+            try:
+                self.f.flush()
+            except BrokenPipeError:
+                self.dead = True
+
+    def __getattr__(self, k):
+        return getattr(self.f, k)
+
+
 def main(argv=None):
+    sys.stdout = _SafeOut(sys.stdout)
     ap = argparse.ArgumentParser(prog="sverif")
     ap.add_argument("prop")
     ap.add_argument("--tier", default=os.environ.get("VERIF_TIER", "quick"), choices=["quick", "thorough"])
@@ -109,5 +136,12 @@ if __name__ == "__main__":
         traceback.print_exc()
         print("ANALYSIS-ERROR property=? checker crashed")
         rc = 2
-    sys.stdout.flush()
-    sys.exit(rc)
+    try:
+        sys.stdout.flush()
+    except Exception:
+        pass
+    try:
+        sys.stdout.close() if getattr(sys.stdout, "dead", False) is False else None
+    except Exception:
+        pass
+    os._exit(rc)
